@@ -581,7 +581,8 @@ def turn_cases(draw):
     gids = draw(st.sampled_from([["g1"], ["g1"], ["g2", "g1"]]))
     graphs = {g: draw(graph_specs(max_nodes=5, max_edges=6)) for g in gids}
     text = draw(texts_for(graphs))
-    eps = draw(st.lists(st.tuples(st.sampled_from(EP_TEXTS), st.sampled_from(["A", "A", "world"])), max_size=4))
+    _ep = st.tuples(st.sampled_from(EP_TEXTS), st.sampled_from(["A", "A", "world"]))
+    eps = draw(st.one_of(st.lists(_ep, max_size=4), st.lists(_ep, min_size=3, max_size=6)))
     q = draw(st.sampled_from([1, 5, 20]))
     wall = q + draw(st.sampled_from([0, 5, 180]))
     target = draw(st.sampled_from(BOUNDARIES + ["none"]))
@@ -596,6 +597,8 @@ def turn_cases(draw):
     for k in loose:
         if draw(st.integers(0, 24)) == 0:
             tighten.add(k)
+    if draw(st.integers(0, 5)) == 0:
+        tighten.add("t2_k")  # more hits than the slice may use: the budget has to bind
     for k in loose:
         v = draw(st.sampled_from(tight[k] if k in tighten else loose[k]))
         if v != "absent":
@@ -614,7 +617,8 @@ def turn_cases(draw):
     warm = draw(st.sampled_from([None, None, {}, {"t1_pops": 5000, "t1_iters": 50}, {"t1_pops": 1}, {"t1_pops": 0, "t1_iters": 0},
                                  {"t1_iters": 1}, {"t1_pops": 3, "t1_iters": 2}]))
     return {"graphs": graphs, "active": gids, "text": text, "episodes": [list(e) for e in eps], "quantum": q,
-            "budgets": budgets, "dur": dur, "mode": mode, "policy": policy, "warm": warm}
+            "budgets": budgets, "dur": dur, "mode": mode, "policy": policy, "warm": warm,
+            "sim_threshold": draw(st.sampled_from([None, -1.0, -1.0]))}  # -1.0: every owned episode is a hit
 
 
 def _read_jsonl(path):
@@ -675,7 +679,8 @@ def check_turn(case, rec=None):
         reset_engine_globals()
         cfg = validated_cfg({"scheduler": {"enabled": True, "policy": case["policy"], "quantum_ms": case["quantum"],
                                            "budgets": dict(case["budgets"])},
-                             "t4": {"snapshot_dir": os.path.join(d, "snap")}})
+                             "t4": {"snapshot_dir": os.path.join(d, "snap")},
+                             **({"t2": {"sim_threshold": case["sim_threshold"]}} if case.get("sim_threshold") is not None else {})})
         idx = InMemoryIndex()
         enc = DeterministicEmbeddingAdapter(dim=32)
         for i, (txt, owner) in enumerate(case["episodes"]):
@@ -811,6 +816,8 @@ def check_turn(case, rec=None):
             labels.append("precedence-exercised")
         if "T2" in results and int(results["T2"].metrics["k_used"]) > 0:
             labels.append("t2-hits-used")
+        if "T2" in results and slice_budgets.get("t2_k") is not None and len(results["T2"].retrieved) > slice_budgets["t2_k"]:
+            labels.append("t2_k-budget-binds(retrieved>budget)")
         if rag:
             labels.append("rag-reentry")
         for key in ("t1_pops", "t1_iters"):
